@@ -14,8 +14,8 @@ RULE = ('Bounded-future typed grammar (bounded eventually/always/until, next/s_n
         'minus/ln/log; a binary node with children of different horizon is frequent) x random traces of length up to h+8. Oracle: '
         'parse(); pastify(); feed one sample per update; for every i >= h (h = harness horizon, next counts 1): update_i == '
         'R-dt(phi, w[0..i])[i-h] (reference on the trace seen so far). Lane pastonly: specifications without future operators: pastified '
-        'monitor == un-pastified monitor == R-dt at every step. Lane units: bounds written with unit suffixes / another default unit / a '
-        'sampling period != 1 s. Lane reject: an unbounded future operator makes pastify() raise RTAMTException. Non-trivial = h >= 1, n > h '
+        'monitor == un-pastified monitor == R-dt at every step. Lanes units / units_pastonly (machinery of C08): two spellings of the same durations with unit suffixes, another default unit and '
+        'a sampling period != 1 s, compared with each other and with the reference after pastify(). Lane reject: an unbounded future operator makes pastify() raise RTAMTException. Non-trivial = h >= 1, n > h '
         'and the formula has two siblings of different horizon or a future operator nested in a future operator (pastonly: a stateful '
         'operator); distinct = distinct (formula text, trace) digests.')
 
